@@ -232,6 +232,8 @@ def rename_model(rnd, m):
         g["id"] = rmap[g["id"]]
         if g.get("parent"):
             g["parent"] = rmap[g["parent"]]
+        if g.get("shift"):
+            g["shift"] = smap[g["shift"]]
     m2["shifts"] = {smap[k]: v for k, v in m2["shifts"].items()}
     if "shift_leaves" in m2:
         m2["shift_leaves"] = {smap[k]: v for k, v in m2["shift_leaves"].items()}
